@@ -512,6 +512,9 @@ fn run_threads_world(scn: &ThreadsScn, entropy_seed: u64) -> WorldOut {
     let seam_preempt = std::env::var("SDSIM_NO_SEAM_PREEMPT").is_err();
     seams::PREEMPT_ENTROPY.store(scn.preempt_entropy && seam_preempt, Ordering::SeqCst);
     seams::PREEMPT_CLOCK.store(scn.preempt_clock && seam_preempt, Ordering::SeqCst);
+    // a wake-up of a simulated lock waiter is a scheduling point too (who goes on first, the
+    // thread that released the lock or the one that was waiting for it, is the simulator's choice)
+    crate::rt::FUTEX_WAKE_YIELDS.store(seam_preempt, Ordering::SeqCst);
     loop {
         for t in 0..scn.threads {
             if !busy[t] && remaining[t] > 0 {
@@ -574,6 +577,7 @@ fn run_threads_world(scn: &ThreadsScn, entropy_seed: u64) -> WorldOut {
     }
     seams::PREEMPT_ENTROPY.store(false, Ordering::SeqCst);
     seams::PREEMPT_CLOCK.store(false, Ordering::SeqCst);
+    crate::rt::FUTEX_WAKE_YIELDS.store(false, Ordering::SeqCst);
     let (sp, st) = (w.rt.spawned, w.rt.steps);
     w.rt.shutdown();
     WorldOut { issued, sched_hash, preempts, threads_spawned: sp, steps: st, blocked, deadlocked }
